@@ -10,3 +10,4 @@ const HooksEnabled = true
 func worldShape(w *ecs.World) uint64     { return w.VerifShape() }
 func worldInvariants(w *ecs.World) error { return w.VerifCheckInvariants() }
 func setHookPoint(f func(site int))      { ecs.VerifPoint = f }
+func relTablesPerNode(w *ecs.World) int  { return w.VerifStats().MaxRelTablesPerNode }
